@@ -1,4 +1,4 @@
-import GmQuic.Lemmas.FlowRecver
+import GmQuic.Lemmas.FlowRcvr
 /-!
 Helper lemmas for C11 about what `Rcvr.rx` answers (used by `Props/C11.lean`, Part 4).
 -/
